@@ -31,9 +31,9 @@ EXTENDS Server, TraceBase
 CONSTANT Loose     \* TRUE for runs on a real UDP socket: no fakenet, so reads, deadline moves and the close of
                    \* the packet conn are not reported and are taken silently wherever the specification allows
 
-VARIABLES l, viol, ctxExp, fin, early
+VARIABLES l, viol, ctxExp, fin, early, badCall
 
-tvars == <<l, viol, ctxExp, fin, early>>
+tvars == <<l, viol, ctxExp, fin, early, badCall>>
 
 Ev == Trace[l]
 Is(name) == Ev.ev = name
@@ -79,10 +79,12 @@ TransportClosedByServe(p) ==      \* defer l.Close() of the serve call, reported
 ResetAll ==
   /\ started' = FALSE /\ lock' = NoLock /\ gen' = 0 /\ closed' = {} /\ conns' = {}
   /\ lsnField' = IF Mode = "tcp" THEN 1 ELSE 0      \* the harness assigned listener 1 before the first call
+  /\ cfgBad' = FALSE
   /\ lsnOpen' = [ll \in Lsn |-> TRUE] /\ pend' = [ll \in Lsn |-> {}]
   /\ pcOpen' = TRUE /\ pcDL' = "none" /\ pin' = 0
   /\ spc' = [p \in P |-> "idle"] /\ sgen' = [p \in P |-> 0] /\ sres' = [p \in P |-> "-"]
   /\ wg' = [p \in P |-> 0] /\ scur' = [p \in P |-> 0] /\ serr' = [p \in P |-> "-"] /\ slsn' = [p \in P |-> 0]
+  /\ sbad' = [p \in P |-> FALSE]
   /\ wpc' = [c \in C |-> "none"] /\ wown' = [c \in C |-> 0] /\ dl' = [c \in C |-> "none"]
   /\ copen' = [c \in C |-> TRUE] /\ hrep' = [c \in C |-> FALSE] /\ hclosed' = [c \in C |-> FALSE]
   /\ kpc' = [k \in K |-> "none"] /\ kown' = [k \in K |-> 0] /\ nread' = 0
@@ -93,18 +95,30 @@ ResetAll ==
 
 Same == UNCHANGED vars
 
+StFailedAll(p) ==                 \* a start that failed before serving: StLock, StBody (failed: init() ran, started
+  /\ spc[p] = "idle" /\ Free /\ ~started          \* untouched), StErrReturn.  No hook sits on those paths; the harness
+  /\ cfgBad \/ p \in badCall                       \* makes such calls only while no other call is in progress, and logs
+  /\ gen' = gen + 1 /\ conns' = {}                 \* the return.
+  /\ spc' = [spc EXCEPT ![p] = "returned"]
+  /\ sres' = [sres EXCEPT ![p] = "fail"]
+  /\ sbad' = [sbad EXCEPT ![p] = p \in badCall]
+  /\ UNCHANGED <<started, lock, closed, lsnField, cfgBad, transp, sgen, wg, scur, serr, slsn, wvars, kvars, shvars, cvars, hist, act>>
+
 StRefusedAll(p) ==                \* StLock, StBody (refused), StErrReturn: one lock hold, reported from inside it;
   /\ spc[p] = "idle" /\ Free /\ started    \* the harness logs the return only later
   /\ spc' = [spc EXCEPT ![p] = "returned"]
   /\ sres' = [sres EXCEPT ![p] = "already"]
-  /\ UNCHANGED <<fields, transp, sgen, wg, scur, serr, slsn, wvars, kvars, shvars, cvars, hist, act>>
+  /\ UNCHANGED <<fields, transp, sgen, wg, scur, serr, slsn, sbad, wvars, kvars, shvars, cvars, hist, act>>
 
 EventStep ==
   \/ Is("start.started")  /\ Ev.p \in P /\ StBody(Ev.p) /\ spc'[Ev.p] = "top"
   \/ Is("start.refused")  /\ Ev.p \in P /\ StRefusedAll(Ev.p)
   \/ Is("serve.returned") /\ Ev.p \in P /\
-        IF Ev.res = "already" THEN spc[Ev.p] = "returned" /\ sres[Ev.p] = "already" /\ Same
-                              ELSE SReturn(Ev.p) /\ sres[Ev.p] = Ev.res
+        CASE Ev.res = "already" -> spc[Ev.p] = "returned" /\ sres[Ev.p] = "already" /\ Same
+          [] Ev.res = "fail"    -> StFailedAll(Ev.p)
+          [] OTHER              -> SReturn(Ev.p) /\ sres[Ev.p] = Ev.res
+  \/ Is("h.break")        /\ HBreak
+  \/ Is("h.fix")          /\ HFix
   \/ Is("s.isstarted")    /\ Ev.p \in P /\ (Ev.v = 1) = started /\ (SCheck(Ev.p) \/ SErrCheck(Ev.p))
   \/ Is("lsn.accept")     /\ Ev.p \in P /\
         IF Ev.res = "ok" THEN SAcceptOk(Ev.p) /\ scur'[Ev.p] = Ev.c /\ slsn[Ev.p] = Ev.l
@@ -152,7 +166,7 @@ EventStep ==
   \/ Is("cli.pkt")        /\ CSendPkt
 
 Silent ==
-  \/ Is("start.started") /\ Ev.p \in P /\ StLock(Ev.p)
+  \/ Is("start.started") /\ Ev.p \in P /\ StLock(Ev.p, Ev.p \in badCall)
   \/ \E h \in H : /\ \/ Is("start.started")
                      \/ Is("quiescent")
                      \/ ((Is("shutdown.returned") \/ Is("pc.close")) /\ Ev.h = h)
@@ -174,40 +188,43 @@ Silent ==
               (ShWake(Ev.h) \/ (Ev.h \in ctxExp /\ ShCtx(Ev.h)) \/ ShClosePC(Ev.h))
 
 -----------------------------------------------------------------------------
-TInit == Init /\ l = 1 /\ viol = {} /\ ctxExp = {} /\ fin = FALSE /\ early = {} /\ HWInit /\ TLCSet(3, <<FALSE, {}>>)
+TInit == Init /\ l = 1 /\ viol = {} /\ ctxExp = {} /\ fin = FALSE /\ early = {} /\ badCall = {} /\ HWInit /\ TLCSet(3, <<FALSE, {}>>)
 
 Late == IF Is("handler.enter") /\ (IF Ev.c # 0 THEN Ev.c \in C /\ LateEnterC(Ev.c) ELSE Ev.k \in K /\ LateEnterK(Ev.k))
         THEN {"NoHandlerStartAfterShutdownReturned"} ELSE {}
 
 TNext ==
   \/ /\ More /\ Is("reset")                       \* next run: a fresh server
-     /\ ResetAll /\ ctxExp' = {} /\ early' = {} /\ HW(l) /\ l' = l + 1 /\ UNCHANGED <<viol, fin>>
+     /\ ResetAll /\ ctxExp' = {} /\ early' = {} /\ badCall' = {} /\ HW(l) /\ l' = l + 1 /\ UNCHANGED <<viol, fin>>
+  \/ /\ More /\ Is("start.call")                  \* v = 1: a call that cannot succeed (ListenAndServe, unusable Net / address)
+     /\ badCall' = IF Ev.v = 1 THEN badCall \cup {Ev.p} ELSE badCall
+     /\ Same /\ HW(l) /\ l' = l + 1 /\ UNCHANGED <<viol, ctxExp, fin, early>>
   \/ /\ More /\ Is("ctx.expire")
-     /\ ctxExp' = ctxExp \cup {Ev.h} /\ Same /\ HW(l) /\ l' = l + 1 /\ UNCHANGED <<viol, fin, early>>
+     /\ ctxExp' = ctxExp \cup {Ev.h} /\ Same /\ HW(l) /\ l' = l + 1 /\ UNCHANGED <<viol, fin, early, badCall>>
   \/ /\ More /\ Is("quiescent")                   \* the harness saw every goroutine blocked
      /\ \A h \in H : shpc[h] # "select"            \* (all silent captures taken)
      /\ ~ENABLED ServerFair                        \* an explanation in which the server could still move is refuted
      /\ viol' = viol \cup (IF \E h \in H : shpc[h] = "wait" THEN {"ShutdownTerminates"} ELSE {})
-     /\ Same /\ HW(l) /\ l' = l + 1 /\ UNCHANGED <<ctxExp, fin, early>>
+     /\ Same /\ HW(l) /\ l' = l + 1 /\ UNCHANGED <<ctxExp, fin, early, badCall>>
   \/ /\ More /\ EventStep
      /\ viol' = viol \cup Broken' \cup Late
-     /\ HW(l) /\ l' = l + 1 /\ UNCHANGED <<ctxExp, fin, early>>
+     /\ HW(l) /\ l' = l + 1 /\ UNCHANGED <<ctxExp, fin, early, badCall>>
   \/ /\ More /\ Silent
      /\ viol' = viol \cup Broken'
-     /\ UNCHANGED <<l, ctxExp, fin, early>>
+     /\ UNCHANGED <<l, ctxExp, fin, early, badCall>>
   \/ /\ More /\ \E p \in P :                      \* the close whose effect is seen before its hook
           /\ spc[p] = "drained" /\ gen \notin closed
           /\ Is("shutdown.returned") \/ Is("pc.close") \/ Is("serve.returned") \/ Is("quiescent")
           /\ SCloseChan(p)
           /\ early' = early \cup {p}
      /\ viol' = viol \cup Broken'
-     /\ UNCHANGED <<l, ctxExp, fin>>
+     /\ UNCHANGED <<l, ctxExp, fin, badCall>>
   \/ /\ More /\ Is("serve.chanclosed") /\ Ev.p \in early
      /\ early' = early \ {Ev.p}
-     /\ Same /\ HW(l) /\ l' = l + 1 /\ UNCHANGED <<viol, ctxExp, fin>>
+     /\ Same /\ HW(l) /\ l' = l + 1 /\ UNCHANGED <<viol, ctxExp, fin, badCall>>
   \/ /\ ~More /\ ~fin
      /\ TLCSet(3, <<TRUE, IF TLCGet(3)[1] THEN TLCGet(3)[2] \cap viol ELSE viol>>)
-     /\ fin' = TRUE /\ Same /\ UNCHANGED <<l, viol, ctxExp, early>>
+     /\ fin' = TRUE /\ Same /\ UNCHANGED <<l, viol, ctxExp, early, badCall>>
 
 Done == /\ PrintT("VP:inv=" \o ToJson(TLCGet(3)[2]))
         /\ Accepted
